@@ -15,9 +15,9 @@ import (
 // by line.
 type Obligation struct {
 	Rule    string   `json:"rule"`
-	Key     string   `json:"key"`     // construct the obligation is about
-	Status  string   `json:"status"`  // ok | violation | undecided | anchor-unresolved | not-implemented
-	Detail  string   `json:"detail"`  // what was established / what fails
+	Key     string   `json:"key"`             // construct the obligation is about
+	Status  string   `json:"status"`          // ok | violation | undecided | anchor-unresolved | not-implemented
+	Detail  string   `json:"detail"`          // what was established / what fails
 	Where   []string `json:"where,omitempty"` // file:line:col of the instructions involved
 	Witness string   `json:"witness,omitempty"`
 }
@@ -36,8 +36,8 @@ type Ctx struct {
 	Assume []string
 	// OverlayFiles maps absolute file names to replacement files (control mode only).
 	OverlayFiles map[string]string
-	floors map[string]int
-	counts map[string]int
+	floors       map[string]int
+	counts       map[string]int
 }
 
 func (c *Ctx) add(rule, key, status, detail string, where ...string) *Obligation {
